@@ -59,6 +59,74 @@ def _worker(args):
     return out
 
 
+def _run_forked(mod, work, nproc, seen_event, deadline):
+    """One forked child per configuration (imports are already warm), results over a pipe.
+    The parent enforces a hard wall-clock deadline per child - z3's own timeout is not reliable in
+    every phase - and, once a violation has been confirmed somewhere, gives the rest a short grace."""
+    import pickle
+    import select
+    pending = list(reversed(work))
+    running = {}          # fd -> (pid, task, start, buffer)
+    results = []
+    grace_until = None
+    while pending or running:
+        while pending and len(running) < nproc:
+            task = pending.pop()
+            r, w = os.pipe()
+            pid = os.fork()
+            if pid == 0:
+                os.close(r)
+                try:
+                    out = _worker(task)
+                    data = pickle.dumps(out)
+                except BaseException as e:      # noqa
+                    o = Outcome(task[1])
+                    o.error = f"harness error: {type(e).__name__}: {e}"
+                    data = pickle.dumps(o)
+                with os.fdopen(w, "wb") as f:
+                    f.write(data)
+                os._exit(0)
+            os.close(w)
+            running[r] = [pid, task, time.time(), b""]
+        if seen_event.is_set() and grace_until is None:
+            grace_until = time.time() + 30
+            pending.clear()
+        rl, _, _ = select.select(list(running), [], [], 0.5)
+        for fd in rl:
+            chunk = os.read(fd, 1 << 20)
+            if chunk:
+                running[fd][3] += chunk
+                continue
+            pid, task, t0, buf = running.pop(fd)
+            os.close(fd)
+            os.waitpid(pid, 0)
+            try:
+                results.append(pickle.loads(buf))
+            except Exception:
+                o = Outcome(task[1])
+                o.error = "worker process died without a result (crash or out of memory)"
+                results.append(o)
+        now = time.time()
+        for fd in list(running):
+            pid, task, t0, buf = running[fd]
+            over = now - t0 > deadline
+            if over or (grace_until is not None and now > grace_until):
+                try:
+                    os.kill(pid, 9)
+                except OSError:
+                    pass
+                os.waitpid(pid, 0)
+                os.close(fd)
+                running.pop(fd)
+                o = Outcome(task[1])
+                if over:
+                    o.error = f"configuration exceeded the hard deadline of {deadline} s"
+                else:
+                    o.skipped = "cancelled: a violation was already confirmed for another configuration"
+                results.append(o)
+    return results
+
+
 def load_known():
     p = os.path.join(VERIF, "known_findings.json")
     if not os.path.exists(p):
@@ -79,12 +147,11 @@ def run_check(mod, tier, seed):
     extras = []
     work = [(mod.__name__, c) for c in cfgs]
     nproc = min(NPROC, max(1, len(work)))
-    if nproc > 1:
-        ctx = multiprocessing.get_context("fork")
-        with ctx.Pool(nproc, maxtasksperchild=getattr(mod, "MAXTASKS", 50)) as pool:
-            results = list(pool.imap_unordered(_worker, work, chunksize=1))
-    else:
-        results = [_worker(w) for w in work]
+    from . import bmc as _bmc
+    _bmc.VIOLATION_SEEN = multiprocessing.get_context("fork").Event()
+    _bmc.KNOWN_KEYS = {k["key"] for k in load_known() if k.get("property") == pid and k.get("status") == "known"}
+    results = _run_forked(mod, work, nproc, _bmc.VIOLATION_SEEN,
+                          deadline=getattr(mod, "TASK_DEADLINE_S", 900 if tier == "quick" else 3600))
     for out in results:
         if out.stats is not None:
             total.merge(out.stats)
@@ -130,8 +197,8 @@ def run_check(mod, tier, seed):
         "evaluations": total.queries + int(sum(e.get("evaluations", 0) for e in extras)),
         "distinct_nontrivial": len(total.nontrivial) + int(sum(e.get("distinct_nontrivial", 0) for e in extras)),
         "rule": meta.get("rule", "one evaluation = one SMT query (window property, vacuity twin, rooting or "
-                         "reachability step) discharged by a fresh solver; distinct = distinct SHA-1 of the "
-                         "query text; non-trivial = the query is not the literal true/false (it mentions netlist terms)"),
+                         "reachability step) discharged by a fresh solver; distinct = distinct structural hash of "
+                         "the query AST; non-trivial = the query is not the literal true/false (it mentions netlist terms)"),
         "samples": (total.samples or [jsonable(c) for c in cfgs[:3]])[:6],
         "configurations": len(cfgs),
         "configurations_skipped": skipped,
